@@ -35,6 +35,8 @@ man = {
          "kind_free_text": "TLA+ trace specification evaluated by TLC on executions recorded from the library (code -> spec) and on TLC-enumerated calls replayed into it (spec -> code)"},
         {"name": "tlc-mc", "path": "spec/OpenSkill.tla", "serves_properties": ["C01", "C02", "C03", "C04", "C05", "C06", "C07", "C13", "C14", "C15", "C16", "C18", "C19", "C20"],
          "kind_free_text": "TLC model checking of the state machine on bounded instances (MC_Lattice, MC_Grammar, MC_Outcome, MC_Seq, MC_Threads) with design-level invariants and emission of every transition"},
+        {"name": "tlaps-aux", "path": "spec/ThreadsProof.tla", "serves_properties": ["C14"],
+         "kind_free_text": "auxiliary TLAPS proof (55 obligations) of ModelReadOnly and ResultIsSequential of Threads.tla for any number of threads and reads"},
         {"name": "apalache-aux", "path": "spec/OutcomeInt.tla", "serves_properties": ["C03"],
          "kind_free_text": "auxiliary symbolic check (Apalache) of the outcome pipeline over unbounded integer rank values"},
     ],
